@@ -38,6 +38,12 @@ var solPins = []solPin{
 	{"withdrawal_query_id", "evm/contracts/token-bridge/TokenBridge.sol",
 		"require(_attestData.queryId==keccak256(abi.encode(\"TRBBridge\",abi.encode(false,_depositId))),", "GetWithdrawalQueryId#ensures"},
 	{"withdrawal_id_type", "evm/contracts/token-bridge/TokenBridge.sol", "Signature[]calldata_sigs,uint256_depositId)external{require(bridgeState!=BridgeState.PAUSED", "GetWithdrawalQueryId (uint256 id)"},
+	{"deposit_details_fields", "evm/contracts/token-bridge/TokenBridge.sol",
+		"structDepositDetails{addresssender;stringrecipient;uint256amount;uint256tip;uint256blockHeight;}",
+		"DecodeDepositReportValue#ensures (address,string,uint256,uint256: sender, recipient, amount, tip)"},
+	{"deposit_recorded_as_given", "evm/contracts/token-bridge/TokenBridge.sol",
+		"deposits[depositId]=DepositDetails(msg.sender,_layerRecipient,_amount,_tip,block.number);", "DecodeDepositReportValue#ensures (field order)"},
+	{"deposit_query_id_type", "evm/contracts/token-bridge/TokenBridge.sol", "uint256publicdepositId;", "GetDepositQueryId (uint256 id)"},
 	{"withdrawal_report_value", "evm/contracts/token-bridge/TokenBridge.sol",
 		"(address_recipient,stringmemory_layerSender,uint256_amountLoya,)=abi.decode(_attestData.report.value,(address,string,uint256,uint256));", "GetWithdrawalReportValue#ensures"},
 }
